@@ -18,6 +18,7 @@ pub assume_specification<T: Clone>[ <T as std::borrow::ToOwned>::to_owned ](x: &
 // the variants of parse_locales::error::Error that the extracted functions construct
 pub enum Error {
     CountArgNoMatch { locale: Key, key_path: KeyPath, foreign_key: KeyPath },
+    ImpossibleRange(String),
     Other,
 }
 pub type Result<T> = core::result::Result<T, Box<Error>>;
@@ -72,6 +73,20 @@ pub open spec fn first_branch(v: RangesInner<T>, count: T, i: int) -> bool {
 //@@ find_value
 
 //@@ populate_inner
+
+// ---- the "impossible range" test at the end of Range::new, lifted (rule E3); T := i64, `s` = the range's text ----
+pub assume_specification<X>[ <Box<X> as From<X>>::from ](t: X) -> (b: Box<X>) ensures *b == t;
+/// Rust's meaning of "the range is empty" for a start and an end bound
+pub open spec fn empty_range(start: Option<T>, end: Bound<T>) -> bool {
+    match (start, end) {
+        (Some(s), Bound::Excluded(e)) => e <= s,
+        (Some(s), Bound::Included(e)) => e < s,
+        _ => false,
+    }
+}
+impl Range<T> {
+//@@ impossible_range
+}
 
 } // verus!
 fn main() {}
